@@ -104,6 +104,10 @@ type simpleRequest struct {
 	// cpsDone reports whether the compress filter has already handled the
 	// request, the filter chain runs again when the request is redirected.
 	cpsDone bool
+
+	// asking reports whether the request must be preceded by ASKING on the
+	// backend connection, it's set when the request is redirected by ASK.
+	asking bool
 }
 
 func newSimpleRequest(v *RespValue) *simpleRequest {
